@@ -571,8 +571,8 @@ func (a *Analysis) CheckC03(rep *Report, tier string) {
 		}
 		npairs++
 		be := prims[n]
-		sb, errB := a.primShape(be, false)
-		sl, errL := a.primShape(le, true)
+		sb, errB := a.primRendering(be, false)
+		sl, errL := a.primRendering(le, true)
 		if !rep.Ob("B3-analysable", n, errB == nil && errL == nil, a.P.Pos(le.Pos()), fmt.Sprint(errB, errL)) {
 			continue
 		}
@@ -587,7 +587,7 @@ func (a *Analysis) CheckC03(rep *Report, tier string) {
 				}
 			}
 		} else {
-			diff = fmt.Sprintf("%d paths vs %d paths", len(sb), len(sl))
+			diff = fmt.Sprintf("%d renderings vs %d renderings:\n    %s\n    %s", len(sb), len(sl), strings.Join(sb, "\n    "), strings.Join(sl, "\n    "))
 		}
 		rep.Ob("B3-twin", n+"/"+n+"LE", ok, a.P.Pos(le.Pos()), "the LE variant is not the BE variant with each integer's byte order flipped:"+diff)
 		if len(rep.Samples) < 3 && ok {
@@ -758,9 +758,12 @@ func wireShape(p *Path) string {
 	}
 	var rets []string
 	for _, r := range p.Ret {
-		if r.Op == "nonnil" {
+		switch {
+		case r.Op == "nonnil" || (isErrorType(r.Type) && nilness(r) == +1):
 			rets = append(rets, "err")
-		} else {
+		case pathKind(p) == "err":
+			rets = append(rets, "_") // what accompanies an error is not part of the wire behaviour
+		default:
 			rets = append(rets, r.Pretty())
 		}
 	}
@@ -830,4 +833,71 @@ func (a *Analysis) generatedFile(ct *CodecType) bool {
 		}
 	}
 	return false
+}
+
+// primRendering: the set of distinct wire renderings of a primitive's success paths (layout canon with symbolic
+// parameters) plus the set of distinct shapes of its failing paths. Two spellings of the same behaviour (a bulk
+// path for long lists next to a loop for short ones) render alike. Falls back to path shapes when a success path
+// is not a recognisable field sequence.
+func (a *Analysis) primRendering(fn *ssa.Function, flip bool) ([]string, error) {
+	args, _, _, _ := roleArgs(fn, 0)
+	// bool parameters stay symbolic here: both arms are rendered
+	args = nil
+	paths, err := a.engineFor(fn).AnalyzeRoot(fn, args)
+	if err != nil {
+		return nil, err
+	}
+	set := map[string]bool{}
+	for _, p := range paths {
+		var r string
+		if pathKind(p) == "ok" {
+			c := &layoutCtx{u: a.U, path: p}
+			var fs []*FieldLayout
+			if hasEvent([]*Path{p}, isRead) {
+				fs = c.extractDec(p.Events, func(ids []int, loop int) (string, int, *Val, bool) {
+					for _, rv := range p.Ret {
+						for _, id := range ids {
+							if containsWire(rv, id) {
+								return "ret", 0, rv, true
+							}
+						}
+						if loop != 0 && containsCollect(rv, loop) {
+							return "ret", 0, rv, true
+						}
+					}
+					return "", -1, nil, false
+				})
+			} else {
+				fs = c.extractEnc(p.Events)
+			}
+			irregularAny := false
+			for _, f := range fs {
+				if f.Kind == "irregular" || (f.Elem != nil && f.Elem.Kind == "irregular") {
+					irregularAny = true
+				}
+			}
+			if irregularAny {
+				r = wireShape(p)
+			} else {
+				r = "ok: " + (&Layout{Fields: fs}).Canon()
+				for _, f := range fs {
+					if ops := allValueOps(f); len(ops) > 0 {
+						r += " {value path: " + strings.Join(ops, "; ") + "}"
+					}
+				}
+			}
+		} else {
+			r = wireShape(p)
+		}
+		if flip {
+			r = flipOrder(r)
+		}
+		set[r] = true
+	}
+	var out []string
+	for r := range set {
+		out = append(out, r)
+	}
+	sort.Strings(out)
+	return out, nil
 }
